@@ -53,7 +53,7 @@ CLAIMED = {
                 'ponder-move result only after it was found in a generated move list; (5) the tablebase PV extension truncates the PV at '
                 '(6) the MultiPV count that indexes / offsets the root list or is handed on with it is, at every use, min(.., rootMoves.size()) and the list is not resized after the clamp. '
                 'the number of moves it replayed. Right level: legality of the answer in every configuration follows from where the '
-                'answer can come from - a provenance/typestate fact that holds for all positions, limits and options at once. Added clause (7): the printed text of a move is its UCI form (printer interpreted per promotion code).',
+                'answer can come from - a provenance/typestate fact that holds for all positions, limits and options at once. Added clause (7): the printed text of a move is its UCI form (printer interpreted per promotion code). (8) MoveList::filter decides membership in the searchmoves list by the full move identity.',
         'design_ref': 'DESIGN.md section 2, C03',
         'note': TB + ' Assumes the legal move generator is correct (C01). Does not decide score ranges or MultiPV distinctness.',
         'technique': 'custom static analysis: reaching-definition provenance, must-precede dominance, flag-sensitive untrusted-value typestate, index agreement',
@@ -116,7 +116,7 @@ CLAIMED = {
                 '(5) group structure of the first-layer accumulator: in every build variant addSubWeights only loads, stores and applies wrapping 16-bit add / subtract in matching numbers (no clamp, no saturating intrinsic), and the full refresh uses the same routine. '
                 'squares rotated, side inverted, score negated). Right level: purity and colour symmetry fail through a missed notification, '
                 'an incomplete key or an asymmetric case - all visible in the code for every history and position; numerical equality of '
-                'network outputs is value-level and not claimed. Added clause (7): the classification pass cached under the material signature branches only on functions of the material.',
+                'network outputs is value-level and not claimed. Added clause (7): the classification pass cached under the material signature branches only on functions of the material. (8) odd arithmetic: no right shift of a possibly negative score in the evaluation.',
         'design_ref': 'DESIGN.md section 2, C07',
         'note': TB + ' Does not decide numerical equality of incremental vs fresh network outputs nor SIMD variant equality.',
         'technique': 'custom static analysis: who-may-write + must-notify dataflow, bounded-write guards, cache-key (def-use) completeness, constant agreement, sigma-normalised sibling comparison of mirrored switch cases',
@@ -189,7 +189,7 @@ CLAIMED = {
                 'nothing and after the whole-range draw sweep, and every time/stop test leads to return false; (3) exhaustive constant '
                 'evaluation over the 8-bit state domain shows the three answer predicates disjoint and false on every unfinished state, '
                 'and get(set(n)) == n; (4) region size/alignment/placement constants agree with the men guard. Right level: the abort '
-                'clause is a typestate property of one class, decidable for every abort point at once; distances themselves are value-level. Added clause (7): adjacent-duplicate filters of the generator and sortedness of the neighbour lists.',
+                'clause is a typestate property of one class, decidable for every abort point at once; distances themselves are value-level. Added clause (7): adjacent-duplicate filters of the generator and sortedness of the neighbour lists. (8) un-capture call order agrees with the special cases of TBIndex::setSquare.',
         'design_ref': 'DESIGN.md section 2, C12',
         'note': TB + ' Does not decide the exactness of distance-to-mate values.',
         'technique': 'custom static analysis: typestate dataflow with sibling-method summaries, must-pass-through on the CFG, exhaustive constant evaluation over an 8-bit domain, constant agreement',
@@ -214,7 +214,7 @@ CLAIMED = {
                 'TranspositionTable::clear, History::init and setClearHistory; History::init / KillerTable::clear cover every member of '
                 'every cell (loop bounds = array extents); iterativeDeepening clears killers before searching; helpers honour '
                 'clearHistory. Right level: "whatever preceded it" quantifies over histories, and a missing reset is visible in the '
-                'write sets for all histories at once (this rule found the generation-counter defect that needs 15+16k searches to show). Added clause (4): clear() tiles [0, tableSize) for every Hash size (finite evaluation of clear() itself).',
+                'write sets for all histories at once (this rule found the generation-counter defect that needs 15+16k searches to show). Added clause (4): clear() tiles [0, tableSize) for every Hash size (finite evaluation of clear() itself). The History::init clause also requires the zeroing to be unconditional.',
         'design_ref': 'DESIGN.md section 2, C14',
         'note': TB + ' Does not decide equality of node counts as such, nor state outside these classes (static-storage writers are listed for review).',
         'technique': 'custom static analysis: effect (write-set) analysis with must-write on all CFG paths, reset-value agreement, must-call chains',
